@@ -209,14 +209,17 @@ fn confirm_oracle(rep: &mut CaseReport, hist: &History, broker: &Broker) {
                     None => continue,
                 };
                 for (k, e) in cep.iter().enumerate() {
-                    if e.reg_ret < cause {
+                    if e.reg_ret <= cause {
                         // a dropped listener loses what it had not read: only what precedes its last read counts
                         let end = if e.dropped { u64::MAX } else { e.end_invoke };
                         let idx_limit = if end == u64::MAX { Some(e.final_read_idx) } else { None };
+                        if (end != u64::MAX || e.final_read_idx > 0) && barrier_after(*sent_idx, end, idx_limit) {
+                            rep.count("c13.confirm_must_have_checked", 1);
+                        }
                         if (end != u64::MAX || e.final_read_idx > 0) && barrier_after(*sent_idx, end, idx_limit) && !e.items.contains(ev) {
                             // only the listener that was current when the event was processed must have it:
                             // a later listener registered before the publish cannot exist (publish is after reg)
-                            let later_has = cep.iter().skip(k + 1).any(|x| x.reg_ret < cause);
+                            let later_has = cep.iter().skip(k + 1).any(|x| x.reg_ret <= cause);
                             if !later_has {
                                 rep.violate("confirm-missed", "registered-before-publish", format!("channel {}: confirm {:?} for a publish issued after listener #{} was registered never reached it, although a later round trip completed while it was still the listener (it got {:?})", ch, ev, k, e.items.iter().take(10).collect::<Vec<_>>()));
                                 return;
@@ -232,10 +235,13 @@ fn confirm_oracle(rep: &mut CaseReport, hist: &History, broker: &Broker) {
                     None => continue,
                 };
                 for (k, e) in rep_.iter().enumerate() {
-                    if e.reg_ret < cause {
+                    if e.reg_ret <= cause {
                         let end = if e.dropped { u64::MAX } else { e.end_invoke };
                         let idx_limit = if end == u64::MAX { Some(e.final_read_idx) } else { None };
-                        let later_has = rep_.iter().skip(k + 1).any(|x| x.reg_ret < cause);
+                        let later_has = rep_.iter().skip(k + 1).any(|x| x.reg_ret <= cause);
+                        if !later_has && (end != u64::MAX || e.final_read_idx > 0) && barrier_after(*sent_idx, end, idx_limit) {
+                            rep.count("c13.return_must_have_checked", 1);
+                        }
                         if !later_has && (end != u64::MAX || e.final_read_idx > 0) && barrier_after(*sent_idx, end, idx_limit) && !e.items.contains(ev) {
                             rep.violate("return-missed", "registered-before-publish", format!("channel {}: returned message {} for a publish issued after listener #{} was registered never reached it", ch, ev, k));
                             return;
@@ -245,6 +251,9 @@ fn confirm_oracle(rep: &mut CaseReport, hist: &History, broker: &Broker) {
             }
             // 3. a replaced listener's queue is disconnected once a later round trip has completed
             for (k, e) in cep.iter().enumerate() {
+                if e.replaced && e.old_disconnected.is_some() {
+                    rep.count("c13.old_listener_checked", 1);
+                }
                 if e.replaced && e.old_disconnected == Some(false) {
                     rep.violate("old-listener", "confirm-still-connected", format!("channel {}: confirm listener #{} was replaced, a round trip later its queue is still connected", ch, k));
                     return;
@@ -294,7 +303,7 @@ fn blocked_oracle(rep: &mut CaseReport, hist: &History, broker: &Broker) {
             ConnRec::OpenChannel { for_thread: 0, invoke, ret, result: Ok(_), .. } => {
                 last_roundtrip = Some((*invoke, *ret));
                 if let Some(k) = cur {
-                    if installed_by[k].is_none() && *invoke > epochs[k].reg_ret {
+                    if installed_by[k].is_none() {
                         installed_by[k] = Some(*ret);
                     }
                 }
@@ -321,17 +330,26 @@ fn blocked_oracle(rep: &mut CaseReport, hist: &History, broker: &Broker) {
         // find that round trip's reply in broker.sent: the OpenOk whose request was invoked at `inv`:
         // approximate by stamp: replies sent after the invoke stamp
         let e = &epochs[k];
+        // the notices this listener must hold form a contiguous range of the stream
+        let mut must: Vec<Option<String>> = Vec::new();
         for (sent_idx, note) in &stream {
             let s = &broker.sent[*sent_idx];
-            // registered (call returned) before the notice entered the wire, and a later OpenOk reply exists
-            // that was sent after the notice and belongs to a round trip started after the notice was sent
+            // installed before the notice entered the wire, and a later OpenOk reply exists that was sent after
+            // the notice and belongs to a round trip started after the notice was sent
             if installed_by[k].map(|r| r < s.stamp).unwrap_or(false) {
                 let later_reply = broker.sent[*sent_idx + 1..].iter().any(|x| matches!(&x.kind, SentKind::Reply { method: amq_protocol::protocol::AMQPClass::Channel(amq_protocol::protocol::channel::AMQPMethod::OpenOk(_)), .. }) && x.stamp > s.stamp);
                 let roundtrip_started_after = inv > s.stamp;
-                if later_reply && roundtrip_started_after && !e.items.contains(note) && e.end_invoke == u64::MAX {
-                    rep.violate("blocked-missed", "registered-before-notice", format!("blocked notice {:?} was sent after the listener was registered and before a later open_channel round trip, yet the listener has {:?}", note, e.items));
-                    return;
+                if later_reply && roundtrip_started_after && e.end_invoke == u64::MAX {
+                    rep.count("c13.blocked_must_have_checked", 1);
+                    must.push(note.clone());
                 }
+            }
+        }
+        if !must.is_empty() {
+            let held = e.items.len() >= must.len() && e.items.windows(must.len()).any(|w| w == &must[..]);
+            if !held {
+                rep.violate("blocked-missed", "registered-before-notice", format!("blocked notices {:?} were sent after the listener was installed and before a later open_channel round trip, yet the listener has {:?}", must, e.items));
+                return;
             }
         }
     }
